@@ -14,6 +14,8 @@ os.environ.setdefault("MPLBACKEND", "Agg")
 os.environ.setdefault("TQDM_DISABLE", "1")
 import warnings
 warnings.filterwarnings("ignore")
+import logging
+logging.disable(logging.WARNING)
 
 
 def main():
